@@ -12,6 +12,7 @@ System.solve     tol > 0 and normal return => the residual norm reported for the
                  (and >= miniter iterations were made by an iterative method); otherwise SolverError / ValueError.
 _with_solve.solve_withinfo   normal return => info.resnorm of the returned pair <= tol, niter >= miniter, niter <= maxiter.
 """
+import os
 import z3
 from pyvc.contract import Contract, State
 from pyvc.values import SInt, SBool, SObj, SOpaque, SExt, PyRaise, Unsupported, zint, zbool, Sym, FIN, NAN, PINF
@@ -122,6 +123,15 @@ class Solver(Contract):
         S.kwargs = dict(atol=atol, rtol=rtol)
         S.globals = {'numpy': Numpy(extra={'linalg': LA()}), 'treelog': Quiet()}
         return S
+
+    def raises(self, cx, S, e):
+        if e.exc == 'ToleranceNotReached':
+            # exceptional postcondition: .best is what the backend returned and it passed the finiteness check
+            best = e.payload.attrs.get('best') if e.payload is not None else None
+            if S.lhs is None or best is not S.lhs:
+                return False
+            return best.forall(lambda i, el: el[0] == FIN)
+        return super().raises(cx, S, e)
 
     def ensures(self, cx, S, result):
         rhsnorm = S.norms[0] if S.norms else None
@@ -521,6 +531,12 @@ def contracts():
                         continue  # forwards directly to _solver
                     cs.append(Solve(rhs, lhs0, ck, rc))
     cs += [SystemSolve('direct'), SystemSolve('iterative'), SystemSolve('default'), WithSolve()]
+    cs += c14_methods.contracts()
+    cs += c14_linesearch.contracts()
+    cs += c14_roundtrip.contracts()
+    cs += c14_matrix.contracts()
+    if os.environ.get('VERIF_C14_PARKED'):  # experiments only: the parked contracts fail on the unchanged tree (candidate defects)
+        cs += PARKED
     return cs
 
 
@@ -530,9 +546,31 @@ TRUSTED = ['pyvc symbolic executor and its Python model (DESIGN 2.3)',
            'all numerics uninterpreted: backend solver methods, A @ x, float arithmetic are arbitrary']
 ASSUMPTIONS = ['for Matrix._solver: matrix entries and rhs are finite and A @ lhs does not overflow, so a finite lhs has a non-nan residual norm',
                'tolerances atol, rtol are finite and >= 0; tol is finite',
-               'the residual norm a solution method reports for its iterate is the residual norm of that iterate (methods are generators and not executed)',
+               'System.solve / solve_withinfo: the residual norm a solution method reports for its iterate is the residual norm of that iterate '
+               '(established separately for Direct, Newton, ReuseNewton, LinesearchNewton, Minimize, Pseudotime: contracts/c14_methods.py)',
                'rhs and lhs0 are one-dimensional (the block right-hand-side case of Matrix.solve is not modelled)',
                'decorators dropped: @cache.function on solve_withinfo (C18), @log.withcontext']
 NOT_COVERED = ['that the residual function is the right one (assembly), accuracy of the linear algebra, independence of the initial guess',
-               'the line-search methods, Arnoldi and pseudo-time iterations themselves (generators)',
-               'System.solve_constraints drop-tolerance mask and System.deconstruct/construct round trip (see DESIGN 4.14)']
+               'Arnoldi.__call__ (generator with a numpy.linalg.lstsq projection), the legacy wrappers']
+
+# part 2: the solution methods (generators), see contracts/c14_methods.py
+from contracts import c14_methods  # noqa: E402  (at the bottom: c14_methods imports Quiet from this module)
+TRUSTED += c14_methods.TRUSTED
+ASSUMPTIONS += c14_methods.ASSUMPTIONS
+NOT_COVERED += c14_methods.NOT_COVERED
+# part 3: the line-search strategies, see contracts/c14_linesearch.py
+from contracts import c14_linesearch  # noqa: E402
+TRUSTED += c14_linesearch.TRUSTED
+ASSUMPTIONS += c14_linesearch.ASSUMPTIONS
+NOT_COVERED += c14_linesearch.NOT_COVERED
+# part 4 / 5: deconstruct/construct round trip, solve_leniently and the submatrix cache guard
+from contracts import c14_roundtrip, c14_matrix  # noqa: E402
+for _m in (c14_roundtrip, c14_matrix):
+    TRUSTED += _m.TRUSTED
+    ASSUMPTIONS += _m.ASSUMPTIONS
+    NOT_COVERED += _m.NOT_COVERED
+# contracts that FAIL on the unchanged tree with a natively reproduced input (candidate defects, notes/C14-methods.md); kept out of contracts()
+from contracts import c14_step  # noqa: E402
+PARKED = list(c14_linesearch.PARKED) + list(c14_step.PARKED)
+ASSUMPTIONS += c14_step.ASSUMPTIONS
+NOT_COVERED += c14_step.NOT_COVERED
